@@ -658,13 +658,14 @@ def h_visgroup(s: str, i0: int, i1: int, ci: int, n: int, depth: int = 1, ids: b
     if n >= 0 and depth >= 0 and not ids:      # text slices: ids fixed; id slices: name fixed
         assume(i0 == 0 and i1 == 1 and ci == 0)
     a, b = pick(IDS, i0), pick(IDS, i1)
-    assume(a != b)
-    m = vmf.VMF()
+    # both maps keep ids as given ("IDs preserved when asked"), so clashing ids (a == b) are a legal input and must survive
+    m = vmf.VMF(preserve_ids=True)
     names = ["top \"q\"", "mid\\", "leaf"]
     names[depth] = s
     leaf = vmf.VisGroup(m, names[2], 55, Vec(1, 2, 3))
     mid = vmf.VisGroup(m, names[1], b, Vec(pick(COLORS, ci)), [leaf, vmf.VisGroup(m, "sib", 56)])
     top = vmf.VisGroup(m, names[0], a, Vec(0, 128, 255), [mid])
+    check(top.id == a and mid.id == b and leaf.id == 55, "a preserve_ids map changed a requested visgroup id", (a, b), (top.id, mid.id, leaf.id))
     s1 = ChunkSink()
     top.export(s1, "\t")
     m2 = vmf.VMF(preserve_ids=True)
